@@ -117,6 +117,7 @@ package txtar
 //@   modifies fsExists, fsData, fsSize, fdPath, fdMode, fdClosed, alloc
 //@   at call os.OpenFile#1: requires flag & 192 == 192 && belowId(dir, sid(name))
 //@   at call os.MkdirAll#1: requires sameStr(path, dirP(fp))
+//@   at call fmt.Errorf#1: requires badName(my_f.Name)
 //@   at call (*os.File).Write#1: requires sameSlice(b, my_f.Data)
 //@   loop 1: invariant -1 <= rangeindex && rangeindex < len(a.Files)
 //@   loop 1: invariant forall p int {fsExists[p]} :: old(fsExists)[p] ==> fsExists[p]
